@@ -356,7 +356,7 @@ theorem newViewJust_of_elected (hwf : WF C) (H : List Ev) (hvalid : Valid (setti
     (hown : ∀ m ∈ a.store.vcs, m.c.sender = mySig a.cfg → m.c.header.mtype = tVC ∧
         ∀ p, m.c.header.proof = some p → p.pRef.hash = p.ppRef.hash ∧ p.ppRef.view < m.c.header.view
           ∧ Ev.com i p.ppRef.view p.ppRef.hash ∈ H)
-    (hash : Nat) (hel : ElectedBy a hash) :
+    {spi0 : List Spi} (hash : Nat) (hel : ElectedBy spi0 a hash) :
     newViewJust (setting C hwf) H a.view hash := by
   obtain ⟨h, hq, hlb⟩ := hel
   -- the logged votes for (h, a.view)
@@ -488,5 +488,78 @@ theorem newViewJust_of_elected (hwf : WF C) (H : List Ev) (hvalid : Valid (setti
             have := hmax m hmf
             simp only [hq1, hp0, proofView] at this
             omega
+
+/-! ## where a proposal's hash comes from: locked by an earlier certificate -/
+
+/-- the hash was certified in an earlier view -/
+def Locked (S : Setting) (H : List Ev) (v h : Nat) : Prop := ∃ pv, pv < v ∧ validCert S H pv h
+
+theorem Locked.mono {S : Setting} {H H' : List Ev} (hsub : ∀ e ∈ H, e ∈ H') {v h : Nat} (hl : Locked S H v h) : Locked S H' v h := by
+  obtain ⟨pv, h1, h2⟩ := hl
+  exact ⟨pv, h1, validCert_mono S hsub h2⟩
+
+/-- follower side: when some vote of a checked NEW_VIEW carries a proof, the embedded proposal's hash
+was certified in an earlier view -/
+theorem locked_of_checked (hwf : WF C) (H : List Ev) (i : Nat) (nvm : NVMsg)
+    (hchk : NVChecked (C.cfg i) nvm) (hadm : ∀ c ∈ nvm.header.votes, AdmVC C H c)
+    (lv : VCContent) (hlv : latestVote nvm.header.votes = some lv) :
+    Locked (setting C hwf) H nvm.header.view nvm.pp.header.hash := by
+  obtain ⟨hvv, _, _, _, hlock⟩ := hchk
+  unfold validateVotes at hvv
+  simp only [Bool.and_eq_true, List.all_eq_true, beq_iff_eq, decide_eq_true_eq] at hvv
+  obtain ⟨⟨_, hall⟩, _⟩ := hvv
+  have sp := C07.maxBy_spec (fun (v : VCContent) => proofView v.header.proof) (nvm.header.votes.filter (fun v => v.header.proof.isSome))
+  obtain ⟨hmem, _⟩ := sp.2 lv hlv
+  rw [List.mem_filter] at hmem
+  obtain ⟨hin, hsome⟩ := hmem
+  unfold lockOk at hlock
+  rw [hlv] at hlock
+  simp only [Bool.and_eq_true, beq_iff_eq] at hlock
+  obtain ⟨⟨_, h2⟩, h3⟩ := hall lv hin
+  obtain ⟨_, _, _, _, s5, s6⟩ := isViewChangeValid_spec _ lv h3
+  cases hp : lv.header.proof with
+  | none => rw [hp] at hsome; cases hsome
+  | some p0 =>
+    rw [hp] at s6
+    have := validCert_of_proof C hwf H i p0 lv.header.view s6 (s5 p0 hp) ((hadm lv hin).2 p0 hp)
+    refine ⟨p0.ppRef.view, by rw [← h2]; exact this.1, ?_⟩
+    rw [hlock.2, hp]
+    exact this.2
+
+/-- leader side: when the logged votes yield a block to re-propose, its hash was certified in an earlier view -/
+theorem locked_of_elected (hwf : WF C) (H : List Ev) (hvalid : Valid (setting C hwf) H)
+    (i : Nat) (a : Node) (hcfg : a.cfg = C.cfg i)
+    (hvc : C11.VCsOK a) (hadm : StoreAdm C H a)
+    (hvb : ∀ m ∈ a.store.vcs, m.block.isSome = m.c.header.proof.isSome)
+    (hown : ∀ m ∈ a.store.vcs, m.c.sender = mySig a.cfg → m.c.header.mtype = tVC ∧
+        ∀ p, m.c.header.proof = some p → p.pRef.hash = p.ppRef.hash ∧ p.ppRef.view < m.c.header.view
+          ∧ Ev.com i p.ppRef.view p.ppRef.hash ∈ H)
+    (h' : Nat) (b : Block) (hash : Nat) (hsome : latestBlockFromVCs (a.store.getVCs h' a.view) = some (b, hash)) :
+    Locked (setting C hwf) H a.view hash := by
+  obtain ⟨m, hm, hmb, hhash, _⟩ := (C09.latestBlockFromVCs_spec (a.store.getVCs h' a.view)).2 b hash hsome
+  unfold Store.getVCs at hm
+  rw [List.mem_filter] at hm
+  simp only [Bool.and_eq_true, beq_iff_eq] at hm
+  obtain ⟨hin, _, hmv⟩ := hm
+  have hps : m.c.header.proof.isSome = true := by rw [← hvb m hin, hmb]; rfl
+  cases hp : m.c.header.proof with
+  | none => rw [hp] at hps; cases hps
+  | some p0 =>
+    rw [hp] at hhash
+    simp only at hhash
+    rcases hvc.auth m hin with hchk | hmine
+    · obtain ⟨_, _, _, _, s5, s6⟩ := isViewChangeValid_spec a m.c hchk.1
+      rw [hp, hcfg] at s6
+      have h5 := s5 p0 hp
+      rw [hcfg] at h5
+      have := validCert_of_proof C hwf H i p0 m.c.header.view s6 h5 ((hadm.vcs m hin).2 p0 hp)
+      refine ⟨p0.ppRef.view, by rw [← hmv]; exact this.1, ?_⟩
+      rw [hhash, validatePreparedProof_hash _ _ _ p0 s6]
+      exact this.2
+    · obtain ⟨_, o2⟩ := hown m hin hmine
+      obtain ⟨q1, q2, q3⟩ := o2 p0 hp
+      refine ⟨p0.ppRef.view, by rw [← hmv]; exact q2, ?_⟩
+      rw [hhash, q1]
+      exact Spec.com_cert (setting C hwf) hvalid q3
 
 end LeanHelix.Net
